@@ -56,9 +56,12 @@ fn probe(p: P, stage: &Cell<u8>) -> Option<Out> {
 	for _ in 0..p.prior { send_payment(&nodes[0], &[&nodes[1]], 500_000); }
 	let (preimage, hash, ..) = route_payment(&nodes[0], &[&nodes[1]], 1_000_000);
 	nodes[0].tx_broadcaster.txn_broadcast();
-	let mon = nodes[0].chain_monitor.chain_monitor.get_monitor(cid).ok()?;
-	let revoked_of = || -> u64 { let mut r = 0; mon.do_mut_signer_call(|s| { r = s.get_enforcement_state().last_holder_revoked_commitment; }); r };
-	let f0 = vh::monitor_close_flags(&*mon);
+	// never hold the LockedChannelMonitor across a call into the ChainMonitor (best_block_updated takes the write lock)
+	nodes[0].chain_monitor.chain_monitor.get_monitor(cid).ok()?;
+	let flags = || -> [bool; 6] { let m = nodes[0].chain_monitor.chain_monitor.get_monitor(cid).unwrap(); vh::monitor_close_flags(&*m) };
+	let holder_no = || -> u64 { let m = nodes[0].chain_monitor.chain_monitor.get_monitor(cid).unwrap(); vh::monitor_restart_numbers(&*m)[0] };
+	let revoked_of = || -> u64 { let m = nodes[0].chain_monitor.chain_monitor.get_monitor(cid).unwrap(); let mut r = 0; m.do_mut_signer_call(|s| { r = s.get_enforcement_state().last_holder_revoked_commitment; }); r };
+	let f0 = flags();
 	if f0[0] || f0[1] || f0[2] || f0[5] { return None; }
 	if f0[3] != (p.funding != 0) || f0[4] != (p.funding != 2) { out.viol.push(format!("monitor flags of a fresh channel ({}): is_manual_broadcast={} funding_seen_onchain={}", describe(&p), f0[3], f0[4])); }
 	stage.set(1);
@@ -70,13 +73,13 @@ fn probe(p: P, stage: &Cell<u8>) -> Option<Out> {
 				let block = create_dummy_block(block_hash, height + 1, Vec::new());
 				nodes[0].chain_monitor.chain_monitor.best_block_updated(&block.header, height + 1);
 				nodes[0].blocks.lock().unwrap().push((block, height + 1));
-				if vh::monitor_close_flags(&*mon)[2] { break; }
+				if flags()[2] { break; }
 			}
 		},
-		2 => mon.broadcast_latest_holder_commitment_txn(&nodes[0].tx_broadcaster, &nodes[0].fee_estimator, &nodes[0].logger),
+		2 => { let m = nodes[0].chain_monitor.chain_monitor.get_monitor(cid).unwrap(); m.broadcast_latest_holder_commitment_txn(&nodes[0].tx_broadcaster, &nodes[0].fee_estimator, &nodes[0].logger); },
 		_ => {},
 	}
-	let f1 = vh::monitor_close_flags(&*mon);
+	let f1 = flags();
 	let bcast = nodes[0].tx_broadcaster.txn_broadcast();
 	if p.trigger != 0 {
 		if !f1[2] { return Some(Out { cases: vec![], viol: vec![] }); } // never triggered: nothing to compare (counted by the caller)
@@ -87,7 +90,7 @@ fn probe(p: P, stage: &Cell<u8>) -> Option<Out> {
 		}
 	}
 	let closed_flags = f1[0] || f1[1] || f1[2];
-	let holder_before = vh::monitor_restart_numbers(&*mon)[0];
+	let holder_before = holder_no();
 	let revoked_before = revoked_of();
 	stage.set(2);
 	// ---- the peer's next commitment_signed, handled before node A looks at its monitor events
@@ -100,7 +103,7 @@ fn probe(p: P, stage: &Cell<u8>) -> Option<Out> {
 	stage.set(3);
 	if p.fail { nodes[0].node.handle_update_fail_htlc(b_id, &upd.update_fail_htlcs.remove(0)); } else { nodes[0].node.handle_update_fulfill_htlc(b_id, upd.update_fulfill_htlcs.remove(0)); }
 	nodes[0].node.handle_commitment_signed_batch_test(b_id, &upd.commitment_signed);
-	let mon_holder = vh::monitor_restart_numbers(&*mon)[0];
+	let mon_holder = holder_no();
 	let mut raa = [false, false];
 	let drain = |slot: usize, raa: &mut [bool; 2]| {
 		for ev in nodes[0].node.get_and_clear_pending_msg_events() { if let MessageSendEvent::SendRevokeAndACK { .. } = ev { raa[slot] = true; } }
